@@ -56,16 +56,15 @@ theorem read_assembled (wo : WordOracle) (window : Nat) (large : Bool) (mb : Byt
     simp
 
 /-- **assembly** for the fast writer: it does not panic, and what it appends is read back.
-`hstatic`: in the `n_commands ≤ 128` branch the static distance code only has the 64 symbols of the
-standard distance alphabet (automatic without the large-window extension). -/
+The static codes are used only with the 64-symbol distance alphabet (`num_distance_symbols ≤
+kStaticDistanceCodeDepth.len()`), where `cmdOK` bounds every distance symbol by 64. -/
 theorem fast_core (wo : WordOracle) (window : Nat) (large : Bool) (ring : Bytes) (start mask : Nat)
     (mb : Bytes) (isLast : Bool) (cmds : List Cmd) (hist : Bytes) (dc : List Int) (w : List Bool)
     (hR : RingHolds ring mask start mb) (h256 : ∀ b ∈ mb, b < 256)
     (h1 : 1 ≤ mb.length) (h2 : mb.length ≤ 2 ^ 24) (hst : start < two64)
     (hIP : inputPairCheck ring start mb.length mask = .ok ())
     (hok : ∀ c ∈ cmds, cmdOK (distAlphabetSize large 0 0) 0 0 c = true)
-    (hlock : lockstep wo 0 0 window mb ⟨hist, dc, 0⟩ 0 cmds = true)
-    (hstatic : cmds.length ≤ 128 → ∀ c ∈ cmds, copyLen c ≠ 0 → c.cmdPrefix ≥ 128 → c.distPrefix % 1024 < 64) :
+    (hlock : lockstep wo 0 0 window mb ⟨hist, dc, 0⟩ 0 cmds = true) :
     ∃ bits fin, storeMetaBlockFast ring start mb.length mask isLast (distAlphabetSize large 0 0) cmds w
         = .ok (w ++ bits) ∧
       decSteps wo 0 0 window mb ⟨hist, dc, 0⟩ cmds = some fin ∧ fin.cursor = mb.length ∧
@@ -91,8 +90,20 @@ theorem fast_core (wo : WordOracle) (window : Nat) (large : Bool) (ring : Bytes)
     intro d n hl i hle
     rw [List.getD_eq_getElem?_getD, List.getElem?_eq_none (by rw [hl]; exact hle)]; rfl
   have hlitlen := litsOf_length mb cmds 0 hrange
-  by_cases hn : cmds.length ≤ 128
-  · -- static command / distance codes
+  have hsl : kStaticDistanceCodeDepth.length = 64 := by decide
+  by_cases hn : cmds.length ≤ 128 ∧ distAlphabetSize large 0 0 ≤ kStaticDistanceCodeDepth.length
+  · -- static command / distance codes (standard distance alphabet only)
+    have hlarge : large = false := by
+      cases large
+      · rfl
+      · exfalso; have := hn.2; rw [hsl] at this; simp [distAlphabetSize] at this
+    have hstatic : ∀ c ∈ cmds, c.distPrefix % 1024 < 64 := by
+      intro c hc
+      have hk := hok c hc
+      simp only [cmdOK, Bool.and_eq_true, decide_eq_true_eq] at hk
+      have := hk.1.1.2
+      have h2 := hn.2
+      omega
     obtain ⟨d', ef, dinv⟩ := fastLitHisto_inv ring mask start mb hR h256 cmds 0 (List.replicate 256 0) []
       (histoInv_zero 256).toData hrange (by unfold two32; simp; omega)
     rw [posOf_zero start hst] at ef
@@ -116,7 +127,7 @@ theorem fast_core (wo : WordOracle) (window : Nat) (large : Bool) (ring : Bytes)
         ((dinv.mem b).mpr hb))
       hok
       (fun c hc => static_cmd_symIO c.cmdPrefix (hbounds c hc).1)
-      (fun c hc h0 h128 => static_dist_symIO _ _ (hstatic hn c hc h0 h128))
+      (fun c hc _ _ => static_dist_symIO _ _ (hstatic c hc))
     simp only at hsd hrd
     rw [posOf_zero start hst] at hsd
     obtain ⟨W, hW⟩ : ∃ W, W = w ++ (headerBits isLast mb.length ++ (bitsOf 13 0 ++ (cb1 ++ (staticCmdBits ++
